@@ -700,7 +700,7 @@ class Engine:
             a = args[0]
             while isinstance(a, VRef):
                 a = self.read_ref(a)
-            if isinstance(a, (VLazy, VOpaque, VSeq)):
+            if isinstance(a, (VLazy, VOpaque, VSeq)) or (isinstance(a, VStruct) and a.name.startswith("#")):
                 return clone(a)
         for pat, fn in self.extra_intrinsics.items():
             if re.search(pat, c):
